@@ -35,7 +35,8 @@ Want(k, tag, st) ==
     IN CASE k = "none" -> acc
          [] k = "msgtype" -> rej({11}, 0)
          [] k = "required" -> rej({1}, tag)
-         [] k = "emptyvalue" -> IF st.haveValues THEN rej({4}, tag) ELSE unspec
+         \* (ValidateFieldsHaveValues=N: "fields without values will not be rejected")
+         [] k = "emptyvalue" -> IF st.haveValues THEN rej({4}, tag) ELSE acc
          [] k = "sectionorder" -> IF st.outOfOrder THEN rej({14}, tag) ELSE unspec
          [] k = "invalidtag" -> IF st.rejectInvalid /\ (IF tag < 5000 THEN ~st.allowUnknown ELSE st.checkUserDefined) THEN rej({0}, tag) ELSE acc
          [] k = "notdefined" -> IF st.rejectInvalid /\ ~st.allowUnknown THEN rej({2}, tag) ELSE acc
